@@ -398,6 +398,23 @@ class GrammarEval:
             base = self.ev(e.value, env, mod, cfg)
             if isinstance(base, G):
                 return self.repeat(base, e.slice, env, mod, cfg, e)
+            if isinstance(base, (list, tuple)):
+                # indexing / slicing a list of grammar elements with constant bounds
+                def const(x):
+                    if x is None:
+                        return None
+                    if isinstance(x, ast.Constant) and isinstance(x.value, int):
+                        return x.value
+                    if isinstance(x, ast.UnaryOp) and isinstance(x.op, ast.USub) and isinstance(x.operand, ast.Constant) and isinstance(x.operand.value, int):
+                        return -x.operand.value
+                    raise Unrecognised(f'subscript `{norm(e)}`', e)
+                sl = e.slice
+                try:
+                    if isinstance(sl, ast.Slice):
+                        return base[const(sl.lower):const(sl.upper):const(sl.step)]
+                    return base[const(sl)]
+                except IndexError:
+                    raise Unrecognised(f'subscript `{norm(e)}` out of range', e)
             raise Unrecognised(f'subscript `{norm(e)}`', e)
         if isinstance(e, ast.Call):
             return self.call(e, env, mod, cfg)
@@ -820,6 +837,65 @@ def srange(s: str, node=None) -> str:
 # ----------------------------------------------------------------------------------------------
 
 TOP_KINDS = ('table', 'ref', 'enum', 'table_group', 'project', 'sticky_note')
+
+
+def action_value(action: 'Action', module_tree: Optional[ast.AST] = None) -> Optional[ast.AST]:
+    """The value a parse action returns, as ONE expression over its parameters: the body of a lambda, or - for a function written as
+    single-assignment locals, guard clauses and returns - the equivalent conditional expression.  Module-level names bound to a literal
+    dict/tuple are replaced by that literal.  None when the function is not of that form."""
+    import copy
+    n = action.node
+    if n is None:
+        return None
+    consts: Dict[str, ast.AST] = {}
+    if module_tree is not None:
+        for st in getattr(module_tree, 'body', []):
+            if isinstance(st, ast.Assign) and len(st.targets) == 1 and isinstance(st.targets[0], ast.Name) and isinstance(st.value, (ast.Dict, ast.Tuple, ast.List, ast.Set)):
+                consts[st.targets[0].id] = st.value
+            elif isinstance(st, ast.AnnAssign) and isinstance(st.target, ast.Name) and isinstance(st.value, (ast.Dict, ast.Tuple, ast.List, ast.Set)):
+                consts[st.target.id] = st.value
+
+    class Sub(ast.NodeTransformer):
+        def __init__(self, env):
+            self.env = env
+
+        def visit_Name(self, node):
+            if isinstance(node.ctx, ast.Load) and node.id in self.env:
+                return copy.deepcopy(self.env[node.id])
+            return node
+
+    if isinstance(n, ast.Lambda):
+        return Sub(dict(consts)).visit(copy.deepcopy(n.body))
+    if not isinstance(n, ast.FunctionDef):
+        return None
+    params = {a.arg for a in n.args.args}
+    body = list(n.body)
+    if body and isinstance(body[0], ast.Expr) and isinstance(body[0].value, ast.Constant) and isinstance(body[0].value.value, str):
+        body = body[1:]
+
+    def conv(stmts, env, depth=0):
+        if depth > 8:
+            return None
+        env = dict(env)
+        for i, st in enumerate(stmts):
+            if isinstance(st, ast.Assign) and len(st.targets) == 1 and isinstance(st.targets[0], ast.Name) and st.targets[0].id not in params:
+                env[st.targets[0].id] = Sub(env).visit(copy.deepcopy(st.value))
+                continue
+            if isinstance(st, ast.Return):
+                return Sub(env).visit(copy.deepcopy(st.value)) if st.value is not None else ast.Constant(value=None)
+            if isinstance(st, ast.If):
+                rest = list(stmts[i + 1:])
+                a = conv(list(st.body) + rest, env, depth + 1)
+                b = conv(list(st.orelse) + rest, env, depth + 1)
+                if a is None or b is None:
+                    return None
+                return ast.IfExp(test=Sub(env).visit(copy.deepcopy(st.test)), body=a, orelse=b)
+            return None
+        return ast.Constant(value=None)
+    e = conv(body, dict(consts))
+    if e is not None:
+        ast.fix_missing_locations(ast.Expression(body=e))
+    return e
 
 
 def walk(g: G, seen: Optional[Set[int]] = None) -> Iterator[G]:
